@@ -33,6 +33,7 @@ def handle (j : Json) : M Json := do
   | "txt_fields" => opTxtFields j
   | "txt_write" => opTxtWrite j
   | "txt_read" => opTxtRead j
+  | "json_text" => opJsonText j
   | "bounds" => opBounds j
   | "closed" => opClosed j
   | "parking" => opParking j
